@@ -308,6 +308,81 @@ def vendor_prop_check(ctx, c, outs):
     return vendor_check(ctx, c, outs, False)
 
 
+# ---------------- .ang in orix's own layout --------------------------------------------------------
+# The file text is rendered HERE from the structured file the Lean model of the writer produces (header lines, integer
+# data rows); orix's writer is not involved, so the reader is tested on its own against (prop) the map the file encodes
+# (the model's specification `quantise`) and (corr) the model reader.
+ORIX_FILLER = ["TEM_PIXperUM          1.000000", "x-star                0.000000", "y-star                0.000000",
+               "z-star                0.000000", "WorkingDistance       0.000000", ""]
+
+
+def orix_ang_lines(c):
+    from . import c14
+    return c14.ang_lines(c)
+
+
+def render_orix_ang(path, f, layout):
+    from . import c14
+    gap = layout["gap"]
+    out = []
+    k_other = 0
+    for l in f["header"]:
+        t = l["t"]
+        if t == "other":
+            out.append("# " + ORIX_FILLER[k_other % len(ORIX_FILLER)] if layout["filler"] else "#")
+            k_other += 1
+        elif t == "mark":
+            continue
+        elif t == "phase":
+            out.append(f"# Phase{gap}{l['id']}")
+        elif t == "name":
+            out.append(f"# MaterialName{gap}" + " ".join(W.s_of(x) for x in l["toks"]))
+        elif t == "formula":
+            out.append(f"# Formula{gap}" + " ".join(W.s_of(x) for x in l["toks"]))
+        elif t == "sym":
+            out.append(f"# Symmetry{gap}" + W.s_of(l["s"]))
+        elif t == "lat":
+            out.append(f"# LatticeConstants{gap}" + " ".join("%.3f" % c14.fval(v, 3) for v in l["v"]))
+        elif t == "cols":
+            out.append("# Column names: " + ", ".join(W.s_of(x) for x in l["names"]))
+        elif t == "grid":
+            k = W.s_of(l["k"])
+            out.append(f"# {k}: " + ("%.6f" % c14.fval(l["v"]) if k in ("XSTEP", "YSTEP") else str(int(l["v"]))))
+    nextra = f["ncols"] - 10
+    w = [x + layout["pad"] for x in f["widths"]]
+    for r in f["rows"]:
+        out.append(c14.render_row(r, w, nextra))
+    with open(path, "w") as fh:
+        fh.write("\n".join(out) + "\n")
+
+
+def orix_ang_check(ctx, c, outs, against_model):
+    from orix import io
+    from . import c14
+    res = W.parse(outs[0]) if outs else None
+    if res is None or "err" in res:
+        return None          # the model writer rejects this map: no file to read
+    exp = res["read"]["map"] if (against_model and res["read"]) else res["spec"]
+    if exp is None:
+        return None if not against_model else "model reader fails on the model writer's file"
+    path = os.path.join(ctx.scratch, f"o{os.getpid()}.ang")
+    try:
+        render_orix_ang(path, res["file"], c["orix_layout"])
+        with warnings.catch_warnings(record=True) as wl:
+            warnings.simplefilter("always")
+            y = io.load(path)
+        if any("Number of columns" in str(m.message) for m in wl) and res["file"]["ncols"] == 10:
+            return "a 10-column file in orix's layout triggers the unexpected-number-of-columns warning"
+        d = c14.map_vs_model(y, exp)
+        return None if not d else ("file in orix's .ang layout: loaded vs " + ("model read" if against_model else
+                                   "the map the file encodes") + ": " + "; ".join(d[:3]))
+    except Exception as e:
+        return f"io.load of a file in orix's .ang layout raises {type(e).__name__}: {str(e)[:160]}"
+    finally:
+        if os.path.exists(path):
+            os.remove(path)
+
+
 # ---------------- unexpected number of columns (.ang) ---------------------------------------------
 def columns_lines(c):
     hdr = []
@@ -393,6 +468,8 @@ def columns_check(ctx, c, outs, against_model):
 SITES = {
     "vendor_corr": sites.Site("vendor_corr", "corr", vendor_corr_check, vendor_lines),
     "vendor_prop": sites.Site("vendor_prop", "prop", vendor_prop_check, vendor_lines),
+    "orix_ang_corr": sites.Site("orix_ang_corr", "corr", lambda ctx, c, o: orix_ang_check(ctx, c, o, True), orix_ang_lines),
+    "orix_ang_prop": sites.Site("orix_ang_prop", "prop", lambda ctx, c, o: orix_ang_check(ctx, c, o, False), orix_ang_lines),
     "columns_corr": sites.Site("columns_corr", "corr", lambda ctx, c, o: columns_check(ctx, c, o, True), columns_lines),
     "columns_prop": sites.Site("columns_prop", "prop", lambda ctx, c, o: columns_check(ctx, c, o, False), columns_lines),
 }
@@ -508,7 +585,8 @@ def ctf_case(rng, fmt, with_ni):
     nd = 17 if astar else 4
     unit = 10 ** nd
     if astar:
-        dx = dy = 191999995708466          # 0.00191999995708466 in units of 1e-17
+        dx = 191999995708466               # 0.00191999995708466 in units of 1e-17
+        dy = dx if rng.random() < 0.4 else int(rng.choice([287999993562699, 95999997854233, 127999997138977]))
     elif fmt == "bruker":
         dx = dy = 20                       # 0.0020 (header written 0,002)
     else:
@@ -736,6 +814,25 @@ def generate(ctx):
         for refined in (False, True):
             for rep in range(5 if quick else 10):
                 yield from emit(f"emsoft_h5/{'refined' if refined else 'dictionary'}", emsoft_case(rng, refined))
+        # .ang in orix's own layout: one to three phases, with and without not-indexed points, extra columns
+        from . import c14
+        from ..gen import maps as GM
+        for rep in range(8 if quick else 24):
+            nph = 1 + rep % 3
+            shape = [int(rng.integers(2, 7)), int(rng.integers(2, 7))]
+            k = int(rng.choice([1, 1, 2]))
+            c = GM.grid_case(rng, shape, nphases=nph, not_indexed=[0, 0.2, 0.4][(rep // 3) % 3], k=k,
+                             props=c14.rand_props(rng, k), with_structure=False,
+                             ids=None if rng.random() < 0.6 else sorted(int(x) for x in rng.choice(9, nph, replace=False)))
+            c = c14.finish_case(rng, c, int(rng.integers(64)))
+            if any(f(c) for f in c14.PREDICATES.values()):
+                continue        # inputs on which the WRITER has open findings (C14) say nothing about the reader
+            c["orix_layout"] = {"gap": ["  ", "\t", "              "][int(rng.integers(3))], "filler": bool(rng.integers(2)),
+                                "pad": int(rng.integers(0, 3))}
+            ni = any(p == -1 for p in c["phase_id"])
+            ctx.count(f"ang/orix/{nph}ph/{'with' if ni else 'no'}-not-indexed", ("c15o", c["shape"], c["phase_id"], c["quats"][:2]))
+            yield "orix_ang_corr", c
+            yield "orix_ang_prop", c
         for fmt, counts in (("tsl", (8, 9, 11, 12, 13, 15)), ("emsoft", (9, 10, 12)), ("astar", (8, 10, 11))):
             for nc in counts:
                 c = columns_case(rng, fmt, nc)
